@@ -1,5 +1,6 @@
 """C09 - A file cut short at any byte yields only its complete records, then stops/errors."""
 import io
+import tempfile
 
 from hypothesis import strategies as st
 
@@ -50,15 +51,36 @@ def read_all(reader, limit):
 
 def check_cut(data, cut, blocked, ipm_encoding=None):
     part = data[:cut]
+    # a third of the cuts arrive over a non-seekable stream; some over real operating-system files: opened by name
+    # (`.name` is the path) and opened from a descriptor (`.name` is an integer, as for pipes, sockets and TemporaryFile)
+    src = closer = None
+    if cut % 3 == 1:
+        src = Pipe(part)
+    elif cut % 12 in (5, 11):
+        closer = src = tempfile.NamedTemporaryFile(prefix='cardutil-verif-c09-') if cut % 12 == 5 else tempfile.TemporaryFile(prefix='cardutil-verif-c09-')
+        src.write(part)
+        src.flush()
+        src.seek(0)
+    else:
+        src = io.BytesIO(part)
+    try:
+        return _check_cut(data, cut, blocked, ipm_encoding, part, src)
+    finally:
+        if closer is not None:
+            closer.close()
+
+
+def _check_cut(data, cut, blocked, ipm_encoding, part, src):
     payload = refvbs.payload_of(part) if blocked else part
     want, ending, _ = refvbs.complete_records(payload)
-    src = Pipe(part) if cut % 3 == 1 else io.BytesIO(part)   # a third of the cuts arrive over a non-seekable stream
     if ipm_encoding:
         reader = mciipm.IpmReader(src, encoding=ipm_encoding, blocked=blocked)
     else:
         reader = mciipm.VbsReader(src, blocked=blocked)
     got, how = read_all(reader, len(want) + 2)
     form = ('ipm-' if ipm_encoding else 'vbs-') + ('1014' if blocked else 'plain')
+    if not isinstance(src, (Pipe, io.BytesIO)):
+        form += ':os-file(name=%s)' % type(getattr(src, 'name', None)).__name__
     if isinstance(how, Exception):
         return exc_sig('exception:' + form, how), f'{form} file of {len(data)} bytes cut at {cut}: {how!r} after {len(got)} records'
     if how == 'runaway':
